@@ -121,6 +121,23 @@ func ctorRule(w *World, r *Report, rule string) {
 				if len(missing) > 0 {
 					status, detail = "violated", "fields left nil: "+strings.Join(missing, ",")
 				}
+				// the zero value handed back beside an error is a placeholder nobody calls
+				if len(missing) > 0 && len(cl.Elts) == 0 {
+					ast.Inspect(file, func(n2 ast.Node) bool {
+						rs, ok := n2.(*ast.ReturnStmt)
+						if !ok || len(rs.Results) < 2 {
+							return true
+						}
+						for _, res := range rs.Results[:len(rs.Results)-1] {
+							if res == ast.Expr(cl) {
+								if id, isId := rs.Results[len(rs.Results)-1].(*ast.Ident); !isId || id.Name != "nil" {
+									status, detail = "discharged", "the zero value, returned together with an error"
+								}
+							}
+						}
+						return true
+					})
+				}
 				r.addRaw(rule, pkg.Types.Name()+"."+encl, "literal "+named.Obj().Name(), w.pos(cl.Pos()), status, detail)
 				return true
 			})
